@@ -73,6 +73,20 @@ CHECKS = {
         note="Assumed: Python bytes ordering on equal lengths is big-endian numeric order (A-LEX); int.from_bytes / "
              "to_bytes are inverse on range (A-STRUCT); hashes are functions (A-HASH).",
         technique=PROOF_TECH),
+    'C13': dict(
+        category='proof', design_ref='6/C13',
+        text="The pool invariant - every pending transaction passed the stand-alone rules and is valid in the ledger "
+             "state of the current head, and no output is referenced twice in the pool - is a pre/post-condition of the "
+             "pool's writers, proved from source: add_transaction_to_pool appends exactly the transaction when all three "
+             "validators return, and changes nothing otherwise (also on an exception that is not caught); set_coinstate / "
+             "_cleanup keep exactly the transactions still valid at the new head, in order, and evict the rest. A "
+             "repository-wide scan shows that nothing else writes the pool or installs a chain state in the manager, and "
+             "that the public writers touch the guarded fields only under the manager's lock.",
+        note="Schedules are not modelled: each call is verified as atomic (it holds the manager's lock for its whole body - "
+             "checked structurally). Validators are used through their contracts (C01/C02). A validator raising an "
+             "exception other than ValidateTransactionError during a head change propagates; nothing is claimed for "
+             "that path.",
+        technique=PROOF_TECH + "; data-structure invariant over its writers + writer scan"),
     'C16': dict(
         category='proof', design_ref='6/C16',
         text="For every height (all integers >= 0, no enumeration): get_block_subsidy equals the documented schedule "
